@@ -484,7 +484,7 @@ func (np negProp) oneConn(client *xmpp.Client, cfg *xmpp.Config, xt *xmpp.XMPPTr
 				out = "failed:false"
 			}
 		}
-	case <-time.After(3 * time.Second):
+	case <-time.After(10 * time.Second):
 		out = "hang"
 	}
 	ln.Close()
